@@ -76,12 +76,19 @@ type metadataAPI struct {
 	consumerGroupsMu   sync.RWMutex
 	consumerGroups     map[string]*consumerGroup
 	groupFailovers     map[*consumerGroup]*failoverStatus
+	deletedStreams     []deletedStream // Pending consumer group notifications, guarded by mu
 	stats              struct {
 		sync.RWMutex
 		brokerLeaderLoad      map[string]int
 		brokerPartitionLoad   map[string]int
 		brokerCoordinatorLoad map[string]int
 	}
+}
+
+// deletedStream is a stream removal consumer groups have yet to be told about.
+type deletedStream struct {
+	name  string
+	epoch uint64
 }
 
 func newMetadataAPI(s *Server) *metadataAPI {
@@ -1100,6 +1107,8 @@ func (m *metadataAPI) AddStream(protoStream *proto.Stream, recovered bool, epoch
 	}
 
 	m.mu.Lock()
+	// Runs after the mutex is released (defers run in reverse order).
+	defer m.notifyStreamsDeleted()
 	defer m.mu.Unlock()
 
 	existing, ok := m.streams[protoStream.Name]
@@ -1475,6 +1484,8 @@ func (m *metadataAPI) resetFailovers() {
 // completes.
 func (m *metadataAPI) RemoveStream(stream *stream, recovered bool, epoch uint64) error {
 	m.mu.Lock()
+	// Runs after the mutex is released (defers run in reverse order).
+	defer m.notifyStreamsDeleted()
 	defer m.mu.Unlock()
 
 	// If this operation is being applied during recovery, only tombstone the
@@ -1514,6 +1525,8 @@ func (m *metadataAPI) RemoveTombstonedStream(stream *stream, epoch uint64) error
 		return fmt.Errorf("cannot delete stream %s because it is not tombstoned", stream)
 	}
 	m.mu.Lock()
+	// Runs after the mutex is released (defers run in reverse order).
+	defer m.notifyStreamsDeleted()
 	defer m.mu.Unlock()
 	return m.deleteStream(stream, epoch)
 }
@@ -1547,8 +1560,9 @@ func (m *metadataAPI) deleteStream(stream *stream, epoch uint64) error {
 }
 
 // removeStream removes the stream from the stream store, cancels any
-// in-flight failovers for its partitions, and triggers a rebalance of consumer
-// group assignments.
+// in-flight failovers for its partitions, and records that consumer groups
+// must drop the stream. This must be called within the metadata mutex; the
+// caller must invoke notifyStreamsDeleted once it has released the mutex.
 func (m *metadataAPI) removeStream(stream *stream, epoch uint64) {
 	delete(m.streams, stream.GetName())
 	for _, partition := range stream.GetPartitions() {
@@ -1558,16 +1572,41 @@ func (m *metadataAPI) removeStream(stream *stream, epoch uint64) {
 			delete(m.partitionFailovers, partition)
 		}
 	}
-	m.startGoroutine(func() {
-		if verifhook.Enabled {
-			verifhook.Point("meta.streamDeletedAsync", m.config.Clustering.ServerID, stream.GetName(), epoch) // nolint: errcheck
+	m.deletedStreams = append(m.deletedStreams, deletedStream{name: stream.GetName(), epoch: epoch})
+}
+
+// notifyStreamsDeleted tells the consumer groups about streams removed by
+// removeStream so they drop their subscriptions and rebalance assignments.
+// It runs on the caller's goroutine (the Raft FSM) so that the groups have
+// processed a stream deletion before the next operation is applied: group
+// operations carry the Raft index as epoch, so a notification that runs after
+// a later join or leave is rejected as stale and the group would keep
+// assignments for the deleted stream on this server only. It must be called
+// without holding the metadata mutex because rebalancing reads the stream
+// store (countStreamPartitions) with the consumer group mutexes held.
+func (m *metadataAPI) notifyStreamsDeleted() {
+	m.mu.Lock()
+	deleted := m.deletedStreams
+	m.deletedStreams = nil
+	m.mu.Unlock()
+	if len(deleted) == 0 {
+		return
+	}
+	if verifhook.Enabled {
+		for _, stream := range deleted {
+			verifhook.Point("meta.streamDeletedAsync", m.config.Clustering.ServerID, stream.name, stream.epoch) // nolint: errcheck
 		}
-		m.consumerGroupsMu.RLock()
+	}
+	m.consumerGroupsMu.RLock()
+	defer m.consumerGroupsMu.RUnlock()
+	for _, stream := range deleted {
 		for _, group := range m.consumerGroups {
-			group.StreamDeleted(stream.GetName(), epoch)
+			if err := group.StreamDeleted(stream.name, stream.epoch); err != nil {
+				m.logger.Errorf("Failed to remove deleted stream %s from consumer group %s: %v",
+					stream.name, group.GetID(), err)
+			}
 		}
-		m.consumerGroupsMu.RUnlock()
-	})
+	}
 }
 
 func (m *metadataAPI) getStreams() []*stream {
